@@ -384,6 +384,47 @@ def rule_r4(prog, res):
                         kind)
     if not found:
         res.unclass('R4', v.where, 'no nullable exemption found')
+    # the kinds the test admits are text/bytes kinds in every protocol
+    TEXT_KINDS = {'six.text_type', 'six.binary_type', 'memoryview', 'mmap',
+                  'bytearray', 'str', 'bytes', 'unicode', 'six.string_types'}
+    nk = 0
+    for k in [c] + list(prog.subclasses(c, strict=True)):
+        val = None
+        for st in k.node.body:
+            if isinstance(st, ast.Assign) and any(
+                    isinstance(t, ast.Name) and
+                    t.id == 'VALID_UNICODE_SOURCES' for t in st.targets):
+                val = st.value
+        if val is None:
+            continue
+        nk += 1
+        elts, todo, odd = [], [val], []
+        while todo:
+            e = todo.pop()
+            if isinstance(e, ast.Tuple):
+                elts.extend(e.elts)
+            elif isinstance(e, ast.BinOp) and isinstance(e.op, ast.Add):
+                todo.extend([e.left, e.right])
+            elif isinstance(e, ast.Attribute) and \
+                    e.attr == 'VALID_UNICODE_SOURCES':
+                pass
+            else:
+                odd.append(e)
+        bad = [unparse(e) for e in elts if unparse(e) not in TEXT_KINDS]
+        where = '%s:%d' % (k.module.relpath, val.lineno)
+        res.ob('R4', where, '%s.VALID_UNICODE_SOURCES = %s' % (
+            k.name, unparse(val)[:60]), 'VIOLATED' if bad else (
+                'unclassified' if odd else 'ok'))
+        for e in odd:
+            res.unclass('R4', where, 'VALID_UNICODE_SOURCES component %s' %
+                        unparse(e)[:40])
+        if bad:
+            res.finding('R4', '%s|VALID_UNICODE_SOURCES|%s' % (
+                k.name, ','.join(bad)), where, '%s admits %s as a source of '
+                'a Unicode member: the Unicode branch of the dict reader '
+                'returns non-bytes values unconverted, so such a value is '
+                'delivered to user code in a string slot' % (k.name, bad))
+    res.floor('R4', 'definitions of VALID_UNICODE_SOURCES', nk, 1)
     # it is invoked from _from_dict_value under soft validation
     f = c.methods['_from_dict_value']
     calls = [x for x in calls_in(f.node) if call_name(x) == 'validate' and
@@ -853,6 +894,12 @@ _Y = 'spyne/protocol/yaml.py'
 _C = 'spyne/model/complex.py'
 
 MUTANTS = [
+    Mutant('yaml-admits-dates-as-text', 'R4', 'fire', _Y,
+           in_func('YamlDocument',
+                   "    text_based = True\n",
+                   "    text_based = True\n    VALID_UNICODE_SOURCES = "
+                   "HierDictDocument.VALID_UNICODE_SOURCES + (date,)\n"),
+           'VALID_UNICODE_SOURCES'),
     Mutant('bytearray-kind-check-removed', 'R4', 'fire', _H,
            in_func('HierDictDocument.validate',
                    "elif issubclass(cls, ByteArray) and not isinstance(inst,",
